@@ -8,9 +8,10 @@ CONSTANTS
   Variant = "intended"
   Broken = "none"
   MaxLoops = 0
-  MaxPrints = 2
+  MaxPrints = 1
   MaxAuth = 0
 VIEW view
+CONSTRAINT Canon
 INVARIANTS TypeOK GaugeExact NoDoubleCount AsnLedger OutcomeSum AsnSumsEpoch QuiescentZero Ledger TotalIsSum AsnSums AsnGaugesNonNeg KonGaugeExact KonLedger
 PROPERTIES PrintKeepsGauges
 CHECK_DEADLOCK FALSE
